@@ -1,5 +1,227 @@
 import NibabelModel.Model.C02
-/-! Props/C02 — the property theorems for C02 (statements + proofs; helper lemmas live in Lemmas/). -/
+import NibabelModel.Generated.C02Types
+import NibabelModel.Lemmas.C02_Ideal
+import NibabelModel.Lemmas.C02_Misc
+/-! Props/C02 — rescaled integer storage: bounded error, no wrap-around, or a loud refusal.
+
+All statements are about the executable model `Model/C02.lean` (exact `Rat`), for ALL values, slopes, intercepts,
+ranges and integer types — nothing is bounded.  The stored slope / intercept `(s, b)` are free rationals (whatever
+float32 rounding produced); `(ss, bs)` are the ideal ones (the writer run with `rnd = id`).
+`rabs` is `|·|` on `Rat`; `applyReadScaling s b q = q·s + b`.
+-/
 namespace Nb.C02
+
+/-! ## shared range -/
+
+/-- `shared_range(flt, int_type)` lies inside the integer type, contains 0, and is not inverted
+    (the contract `array_to_file` relies on), for every significand width and every integer type. -/
+theorem shared_range_contract (p : Nat) (o : OutT) (h1 : o.omin ≤ 0) (h2 : 0 ≤ o.omax) :
+    o.omin ≤ (sharedRange p o).1 ∧ (sharedRange p o).1 ≤ (sharedRange p o).2 ∧ (sharedRange p o).2 ≤ o.omax := by
+  have := sharedRange_contract p o h1 h2
+  omega
+
+example : sharedRange 24 ⟨-2147483648, 2147483647⟩ = (-2147483648, 2147483520) := by decide +kernel
+
+/-! ## no wrap-around -/
+
+/-- NO WRAP (scaled path): whatever the stored slope `s`, intercept `b`, thresholds (finite or infinite), nan2zero
+    flag and data (finite, NaN, ±inf), every integer the scaled path of `array_to_file` hands to the final cast lies
+    in `[both_mn, both_mx]`. -/
+theorem no_wrap (p : Nat) (s b : Rat) (dtMn dtMx : Option Rat) (bm : Int × Int) (n2z : Bool)
+    (data : List Val) (raws : List Int) (hbm : bm.1 ≤ bm.2)
+    (h : scaledWrite p s b dtMn dtMx bm n2z data = .ok raws) : ∀ q ∈ raws, bm.1 ≤ q ∧ q ≤ bm.2 :=
+  scaledWrite_mem hbm h
+
+example : scaledWrite 53 1 16777220 (some 16777219) (some 16777219) (0, 255) false [.fin 16777219, .pinf, .ninf]
+    = .ok [0, 0, 0] := by decide +kernel
+
+/-- NO WRAP (whole save, every class incl. MGH): if `save` succeeds, every stored raw integer lies inside the on-disk
+    integer type `[omin, omax]` — so the final cast never wraps.  `DataInType`: integer data are values of their dtype. -/
+theorem no_wrap_save (c : Cls) (rnd : Rat → Rat) (p32 : Nat) (i : InT) (o : OutT) (data : List Val)
+    (s b : Rat) (raws : List Int) (ho1 : o.omin ≤ 0) (ho2 : 0 ≤ o.omax) (hd : DataInType i data)
+    (h : save c rnd p32 i o data = .ok (s, b, raws)) : ∀ q ∈ raws, o.omin ≤ q ∧ q ≤ o.omax :=
+  save_mem ho1 ho2 hd h
+
+example : save .nifti id 24 (.flt 53) ⟨0, 255⟩ [.fin 0, .fin 255, .fin (5/2), .nan, .pinf]
+    = .ok (1, 0, [0, 255, 2, 0, 255]) := by decide +kernel
+
+/-- The ORIGINAL thresholds (`post_mn = max(post_mn, both_mn); post_mx = min(post_mx, both_mx)`, before fix 37e49301)
+    let a value out of the shared range: constant 16777219.0 (float32 intercept 16777220) to uint8 gives −1, which the
+    cast wraps to 255 (reload 16777475).  The current thresholds give 0. -/
+theorem no_wrap_orig_counterexample :
+    scaleFinOrig 1 16777220 16777219 16777219 0 255 16777219 = -1 ∧
+    ¬ (0 ≤ scaleFinOrig 1 16777220 16777219 16777219 0 255 16777219) ∧
+    scaleFin 1 16777220 16777219 16777219 0 255 16777219 = 0 := by
+  decide +kernel
+
+/-! ## error bound -/
+
+/-- ERROR BOUND with a gap term.  `q = clip(rint((v − b)/s), L, H)` is what is stored for `v`;
+    the ideal map `x ↦ ss·x + bs` reaches `v` at some `xs ∈ [L', H']` (the integer range the writer aimed at);
+    `g ≥ 0` bounds how far `[L', H']` sticks out of the clip range `[L, H]`.  Then
+
+      |q·s + b − v| ≤ |s|/2 + |b − bs| + |s − ss|·max(|L'|, |H'|) + |s|·g.
+
+    Slope-only writers aim at the TYPE range while `array_to_file` clips to the SHARED range: there
+    `g = max(omax − both_mx, both_mn − omin)` (127 steps for int32 through float32). -/
+theorem error_bound_gap (s b ss bs v xs : Rat) (L H L' H' : Int) (g : Rat) (hs : s ≠ 0) (hLH : L ≤ H)
+    (hv : v = ss * xs + bs) (hL' : (L' : Rat) ≤ xs) (hH' : xs ≤ (H' : Rat))
+    (hg0 : 0 ≤ g) (hg1 : (H' : Rat) - H ≤ g) (hg2 : (L : Rat) - L' ≤ g) :
+    rabs (applyReadScaling s b (clipI (rint ((v - b) / s)) L H) - v)
+      ≤ rabs s / 2 + rabs (b - bs) + rabs (s - ss) * max (rabs L') (rabs H') + rabs s * g := by
+  simp only [rabs_eq_abs, applyReadScaling]
+  exact err_core hs hLH hv hL' hH' hg0 hg1 hg2
+
+example : (5 : Rat) = 2 * (5/2) + 0 ∧ ((0 : Int) : Rat) ≤ 5/2 ∧ (5/2 : Rat) ≤ ((255 : Int) : Rat) := by
+  refine ⟨by norm_num, by norm_num, by norm_num⟩
+
+/-- ERROR BOUND (the property's formula): when the ideal scaled value lies inside the clip range,
+
+      |q·s + b − v| ≤ |s|/2 + |b − bs| + |s − ss|·max(|L|, |H|)
+
+    — half a stored step plus exactly the rounding error of the stored slope / intercept. -/
+theorem error_bound (s b ss bs v xs : Rat) (L H : Int) (hs : s ≠ 0) (hLH : L ≤ H)
+    (hv : v = ss * xs + bs) (hL : (L : Rat) ≤ xs) (hH : xs ≤ (H : Rat)) :
+    rabs (applyReadScaling s b (clipI (rint ((v - b) / s)) L H) - v)
+      ≤ rabs s / 2 + rabs (b - bs) + rabs (s - ss) * max (rabs L) (rabs H) := by
+  have := error_bound_gap s b ss bs v xs L H L H 0 hs hLH hv hL hH (le_refl 0) (by linarith) (by linarith)
+  simpa using this
+
+/-- ERROR BOUND for what `array_to_file` really does: thresholds `rint((mn−b)/s)`, `rint((mx−b)/s)` (swapped for a
+    negative slope), both clamped into the shared range, then the element clipped to them.  For every finite
+    `v ∈ [mn, mx]` the bound of `error_bound_gap` holds with `[L, H] = [both_mn, both_mx]`. -/
+theorem error_bound_write (s b ss bs mn mx v xs : Rat) (bmn bmx L' H' : Int) (g : Rat) (hs : s ≠ 0)
+    (hb : bmn ≤ bmx) (h1 : mn ≤ v) (h2 : v ≤ mx)
+    (hv : v = ss * xs + bs) (hL' : (L' : Rat) ≤ xs) (hH' : xs ≤ (H' : Rat))
+    (hg0 : 0 ≤ g) (hg1 : (H' : Rat) - bmx ≤ g) (hg2 : (bmn : Rat) - L' ≤ g) :
+    rabs (applyReadScaling s b (scaleFin s b mn mx bmn bmx v) - v)
+      ≤ rabs s / 2 + rabs (b - bs) + rabs (s - ss) * max (rabs L') (rabs H') + rabs s * g := by
+  rw [scaleFin_eq hs hb h1 h2]
+  exact error_bound_gap s b ss bs v xs bmn bmx L' H' g hs hb hv hL' hH' hg0 hg1 hg2
+
+/-- the ideal slope+intercept writer (NIfTI; `rnd = id`) sends the whole finite range into
+    `shared_range(float32, out)`: every `v ∈ [inMin, inMax]` is `ss·xs + bs` for some `xs ∈ [sh.1, sh.2]`
+    (both the plain and the sign-flipped uint variant) -/
+theorem ideal_in_range_inter (o : OutT) (sh : Int × Int) (inMin inMax ss bs : Rat) (hsh : sh.1 < sh.2)
+    (hne : inMin < inMax) (h : rangeScaleInter id o sh false inMin inMax = .ok (ss, bs)) :
+    ss ≠ 0 ∧ ∀ v, inMin ≤ v → v ≤ inMax →
+      ∃ xs : Rat, (sh.1 : Rat) ≤ xs ∧ xs ≤ (sh.2 : Rat) ∧ v = ss * xs + bs :=
+  ideal_inter hsh hne h
+
+example : rangeScaleInter id ⟨0, 255⟩ (0, 255) false (-510) 0 = .ok (-2, 0) := by decide +kernel
+
+/-- the ideal slope-only writer (SPM; `rnd = id`) sends the finite range into the integer TYPE range -/
+theorem ideal_in_range_slope (o : OutT) (inMin inMax ss : Rat) (ho1 : o.omin ≤ 0) (ho2 : 0 < o.omax)
+    (hmm : inMin ≤ inMax) (hnz : ¬ (inMin = 0 ∧ inMax = 0)) (h : rangeScaleSlope o inMin inMax = .ok ss) :
+    ss ≠ 0 ∧ ∀ v, inMin ≤ v → v ≤ inMax →
+      ∃ xs : Rat, (o.omin : Rat) ≤ xs ∧ xs ≤ (o.omax : Rat) ∧ v = ss * xs + 0 :=
+  ideal_slope ho1 ho2 (fun h0 => lt_of_le_of_ne ho1 h0) hmm hnz h
+
+example : rangeScaleSlope ⟨-32768, 32767⟩ (-65536) 100 = .ok 2 := by decide +kernel
+
+/-- STAYS IN RANGE: a reloaded finite value leaves `[mn, mx]` by at most half a step plus the same rounding terms
+    (hence by less than one step when the stored slope / intercept are the ideal ones and there is no gap). -/
+theorem stays_in_range (s b ss bs mn mx v xs : Rat) (bmn bmx L' H' : Int) (g : Rat) (hs : s ≠ 0)
+    (hb : bmn ≤ bmx) (h1 : mn ≤ v) (h2 : v ≤ mx)
+    (hv : v = ss * xs + bs) (hL' : (L' : Rat) ≤ xs) (hH' : xs ≤ (H' : Rat))
+    (hg0 : 0 ≤ g) (hg1 : (H' : Rat) - bmx ≤ g) (hg2 : (bmn : Rat) - L' ≤ g) :
+    mn - (rabs s / 2 + rabs (b - bs) + rabs (s - ss) * max (rabs L') (rabs H') + rabs s * g)
+        ≤ applyReadScaling s b (scaleFin s b mn mx bmn bmx v) ∧
+      applyReadScaling s b (scaleFin s b mn mx bmn bmx v)
+        ≤ mx + (rabs s / 2 + rabs (b - bs) + rabs (s - ss) * max (rabs L') (rabs H') + rabs s * g) := by
+  have h := error_bound_write s b ss bs mn mx v xs bmn bmx L' H' g hs hb h1 h2 hv hL' hH' hg0 hg1 hg2
+  rw [rabs_eq_abs (applyReadScaling s b (scaleFin s b mn mx bmn bmx v) - v), abs_le] at h
+  constructor
+  · linarith [h.1]
+  · linarith [h.2]
+
+/-! ## NaN and ±inf -/
+
+/-- NAN / INF: in the scaled path with finite thresholds `mn ≤ mx` (the finite range of the data)
+    * `+inf` is stored exactly as the largest finite input `mx` is, `−inf` exactly as `mn` is;
+    * with nan2zero, NaN is stored as `clip(rint(−b/s), both_mn, both_mx)`, and when that is not clipped the reloaded
+      value is within half a step of 0. -/
+theorem nan_inf (p : Nat) (s b mn mx : Rat) (bm : Int × Int) (n2z : Bool) (hs : s ≠ 0) (hmm : mn ≤ mx)
+    (hbm : bm.1 ≤ bm.2) :
+    scaledWrite p s b (some mn) (some mx) bm n2z [.pinf] = scaledWrite p s b (some mn) (some mx) bm n2z [.fin mx] ∧
+    scaledWrite p s b (some mn) (some mx) bm n2z [.ninf] = scaledWrite p s b (some mn) (some mx) bm n2z [.fin mn] ∧
+    (∀ f, scaledWrite p s b (some mn) (some mx) bm true [.nan] = .ok [f] →
+        f = clipI (rint ((0 - b) / s)) bm.1 bm.2 ∧
+        (bm.1 ≤ rint ((0 - b) / s) ∧ rint ((0 - b) / s) ≤ bm.2 → rabs (applyReadScaling s b f - 0) ≤ rabs s / 2)) := by
+  have hinf := fun nf => inf_as_extreme (b := b) hs hmm hbm nf rfl rfl
+  refine ⟨?_, ?_, ?_⟩
+  · simp only [scaledWrite_fin, List.mapM_cons, List.mapM_nil]
+    congr 1; funext nf; rw [(hinf nf).1]
+  · simp only [scaledWrite_fin, List.mapM_cons, List.mapM_nil]
+    congr 1; funext nf; rw [(hinf nf).2]
+  · intro f h
+    simp only [scaledWrite_fin, if_true, List.mapM_cons, List.mapM_nil, bind, Except.bind, Except.map] at h
+    cases hc : nanFillCheck p s b (rint ((0 - b) / s)) bm.1 bm.2 with
+    | error e => rw [hc] at h; cases h
+    | ok f' =>
+      rw [hc] at h
+      simp only [scaleVal, pure, Except.pure] at h
+      injection h with h; injection h with h
+      subst h
+      have e := nanFillCheck_eq hc
+      refine ⟨e, fun hin => ?_⟩
+      have : f' = rint ((0 - b) / s) := by rw [e]; unfold clipI; omega
+      rw [this, rabs_eq_abs, rabs_eq_abs]
+      exact nan_reload hs
+
+example : scaledWrite 53 (2/51) 0 (some 3) (some 10) (0, 255) true [.nan, .pinf, .ninf, .fin 10, .fin 3]
+    = .ok [0, 255, 76, 255, 76] := by decide +kernel
+
+/-! ## refusals -/
+
+/-- REFUSAL (no scaling fields): Analyze has neither slope nor intercept; whenever scaling is needed
+    (`ArrayWriter.scaling_needed`) `save` returns the writer error and no bytes; and its header accepts nothing but
+    slope 1 / intercept 0. -/
+theorem refusal (rnd : Rat → Rat) (p32 : Nat) (i : InT) (o : OutT) (data : List Val) :
+    (awScalingNeeded i o data = true → save .analyze rnd p32 i o data = .error .writer) ∧
+    (∀ s b, setSlopeInter .analyze s b = .ok () ↔ s = 1 ∧ b = 0) ∧
+    (∀ s b, setSlopeInter .spm s b = .ok () ↔ s ≠ 0 ∧ b = 0) :=
+  ⟨fun h => refusal_plain rfl h, fun _ _ => setSlopeInter_analyze, fun _ _ => setSlopeInter_spm⟩
+
+example : awScalingNeeded (.flt 24) ⟨-32768, 32767⟩ [.fin (1/4), .fin 100000] = true := by decide +kernel
+
+/-- REFUSAL (needed intercept missing): SPM stores a slope only; float data of mixed sign cannot go to an unsigned
+    type without an intercept — `save` refuses (`WriterError`), whatever the rounding. -/
+theorem refusal_uint_mixed (rnd : Rat → Rat) (p32 prec : Nat) (o : OutT) (data : List Val) (mn mx : Rat) (hn : Bool)
+    (hu : o.omin = 0) (hfr : finiteRange data = (some (mn, mx), hn)) (h1 : mn < 0) (h2 : 0 < mx) :
+    save .spm rnd p32 (.flt prec) o data = .error .writer :=
+  refusal_mixed hu hfr h1 h2
+
+example : finiteRange [.fin (-1), .nan, .fin 2] = (some (-1, 2), true) := by decide +kernel
+
+/-- KNOWN FINDING (open): MGH has no scaling fields and no writer: `MGHImage._write_data` casts with clipping.
+    The model reproduces it — scaling is needed, yet the save succeeds with clipped / rounded values. -/
+theorem mgh_clips_known_finding :
+    awScalingNeeded (.flt 24) ⟨-32768, 32767⟩ [.fin (1/4), .fin (3/2), .fin 100000, .fin (-70000)] = true ∧
+    save .mgh id 24 (.flt 24) ⟨-32768, 32767⟩ [.fin (1/4), .fin (3/2), .fin 100000, .fin (-70000)]
+      = .ok (1, 0, [0, 2, 32767, -32768]) := by
+  decide +kernel
+
+/-! ## exact integer → integer paths -/
+
+/-- IU2IU EXACT: when the slope+intercept writer takes its intercept-only branch (data range fits the shared type
+    range) the stored `(1, inter)` reloads every integer `v ∈ [mn, mx]` exactly; likewise the sign-flip branch
+    `(−1, 0)` of the slope writers for unsigned output.  (`sh = shared_range(float32, out)`, `bm ⊇ sh` the shared range
+    of the working type.) -/
+theorem iu2iu_exact (w : Writer) (rnd : Rat → Rat) (p32 : Nat) (o : OutT) (sh bm : Int × Int) (mn mx : Int)
+    (hmm : mn ≤ mx) (hbm1 : bm.1 ≤ sh.1) (hsh0 : sh.1 ≤ 0) (hbm2 : sh.2 ≤ bm.2) :
+    (mx - mn ≤ sh.2 - sh.1 → (sh.1 = 0 ∨ sh.2 ≤ -sh.1) →
+      let inter := if sh.1 = 0 then floorExact p32 (mn - sh.1) else floorExact p32 (mn + (mx - mn + 1) / 2)
+      mx - inter ≤ sh.2 →
+        iu2iuInter rnd p32 o sh mn mx = .ok (1, (inter : Rat)) ∧
+        ∀ v : Int, mn ≤ v → v ≤ mx → applyReadScaling 1 inter (scaleFin 1 inter mn mx bm.1 bm.2 v) = v) ∧
+    (o.isU = true → mx ≤ 0 → (mn.natAbs : Int) ≤ sh.2 →
+        iu2iuSlope w rnd o sh mn mx = .ok (-1, 0) ∧
+        ∀ v : Int, mn ≤ v → v ≤ mx → applyReadScaling (-1) 0 (scaleFin (-1) 0 mn mx bm.1 bm.2 v) = v) :=
+  ⟨fun hfit hsym => iu2iu_inter_exact hmm hfit hsym hbm1 hbm2,
+   fun hU hneg hfit => iu2iu_flip_exact hU hmm hneg hfit (by omega) hbm2⟩
+
+example : iu2iuInter id 24 ⟨0, 255⟩ (0, 255) 1000 1200 = .ok (1, 1000) ∧
+    iu2iuSlope .slope id ⟨0, 255⟩ (0, 255) (-200) (-3) = .ok (-1, 0) := by decide +kernel
 
 end Nb.C02
